@@ -2,9 +2,10 @@
 # usage: selftest/run_mutants.sh <Cxx> [pattern]   -- runs ./check Cxx against every selftest/mutants/<pattern>*.diff
 cd "$(dirname "$0")/.."
 P=$1; PAT=${2:-$1}
-for m in selftest/mutants/${PAT}*.diff; do
+for m in selftest/mutants/${PAT}*diff; do
   s=$(date +%s)
-  out=$(selftest/with_patch.sh $m -- ./check $P 2>&1); code=$?
+  R=""; case "$m" in *.rdiff) R="-R";; esac
+  out=$(selftest/with_patch.sh $R $m -- ./check $P 2>&1); code=$?
   echo "=== $(basename $m) exit=$code $(( $(date +%s) - s ))s"
   echo "$out" | grep -E "VIOLATION|KNOWN|CHECKER|what:" | cut -c1-260 | head -5
 done
